@@ -314,7 +314,7 @@ def run(ctx, facts):
         panic_rules(ctx, facts, prefix)
         C04._dens_sketch(ctx, facts, prefix)
         C04.deleg_slice(ctx, facts, prefix + "sketch_slice", finisher="densify")
-    ctx.floor("C09 densify write/copy instances", n, 10)
+    ctx.floor("C09 densify write/copy instances", n, 8)
     from . import C13
     C13.require_verified_reset(ctx, facts, [C13.OD, C13.RD], "REINIT")
     u32view(ctx, facts)
